@@ -396,6 +396,7 @@ def do_eval(s, ref, op, world, step):
     world.begin_op(fault)
     a = call(s.evaluate, which, s.obj, ref, op, False)
     faulted = any('fault' in r for r in world.solver_runs)
+    runs = list(world.solver_runs)
     world.end_op()
     was = world.faults_enabled
     world.faults_enabled = False
@@ -419,8 +420,21 @@ def do_eval(s, ref, op, world, step):
                     s.kind, which, short(a)), step)
         return
     tol = {}
+    adaptive = any(r.get('exact') is False for r in runs)
+    noisy = any(r.get('min_abs') is not None and r['min_abs'] < (
+        1e-7 if adaptive else 1e-9) for r in runs)
+    if adaptive:
+        # the reduced model integrates a different (smaller) sensitivity
+        # system, so the adaptive engine takes different steps
+        tol = {'rtol': 1e-5, 'atol': 1e-8}
+    if noisy and which in ('ll', 'pw', 's1'):
+        # outputs at the solver's tolerance level: a log-scale error model
+        # amplifies the legitimate 1e-12 differences without bound
+        world.probe('noise_level_outputs_skipped')
+        return
     if which in ('s1', 'sim_s1', 's1r'):
-        tol = {'rtol': 1e-7, 'atol': 1e-10, 'norm': True}
+        tol = {'rtol': 1e-4 if adaptive else 1e-7, 'atol': 1e-10,
+               'norm': True}
         # a non-finite score comes with meaningless (uninitialised)
         # sensitivities: only the score is compared then
         if (isinstance(a, tuple) and isinstance(b, tuple)
@@ -650,10 +664,19 @@ def generate(rng, index, tier):
     fresh = iter('q%d' % i for i in range(1000))
     evals = list(subj.evals)
     p_eval = rng.uniform(0.3, 0.7)
+    shadow_fixed = set()
+    want_sens = False
+    sens_evals = [e for e in evals if e in ('s1', 'sim_s1', 's1r')]
     for _ in range(n_ops):
         r = rng.random()
-        if r < p_eval:
-            op = {'op': 'eval', 'kind': rng.choice(evals),
+        if r < p_eval or (want_sens and sens_evals):
+            ek = rng.choice(evals)
+            if want_sens and sens_evals:
+                # a sensitivity evaluation straight after the fix (a plain
+                # evaluation in between would rebuild a stale solver)
+                ek = rng.choice(sens_evals)
+            want_sens = False
+            op = {'op': 'eval', 'kind': ek,
                   'x': _vals(rng, n), 'seed': rng.randint(0, 10 ** 6)}
             if kind == 'error':
                 nt = rng.randint(1, 5)
@@ -685,6 +708,17 @@ def generate(rng, index, tier):
                         'names': {str(i): next(fresh) for i in idx}})
         else:
             mode = rng.random()
+            cur_fixed = sorted(shadow_fixed)
+            cur_free = [i for i in range(n) if i not in shadow_fixed]
+            if mode < 0.25 and cur_fixed and cur_free:
+                # swap of equal size in one call: release one, fix another
+                a, b = rng.choice(cur_fixed), rng.choice(cur_free)
+                shadow_fixed.discard(a)
+                shadow_fixed.add(b)
+                ops.append({'op': 'fix', 'set': [
+                    [a, None], [b, round(rng.uniform(0.2, 2.0), 3)]]})
+                want_sens = True
+                continue
             if mode < 0.1:
                 idx = list(range(n))          # everything
             elif mode < 0.2 and kind in ('loglik', 'pred'):
@@ -698,6 +732,11 @@ def generate(rng, index, tier):
             for i in idx:
                 st.append([i, None if rng.random() < 0.3
                            else round(rng.uniform(0.2, 2.0), 3)])
+                if st[-1][1] is None:
+                    shadow_fixed.discard(i)
+                else:
+                    shadow_fixed.add(i)
+            want_sens = rng.random() < 0.5
             op = {'op': 'fix', 'set': st}
             if rng.random() < 0.1:
                 op['unknown'] = {'no such parameter': 1.0}
